@@ -304,7 +304,15 @@ func (w *World) NextTask() uint64 { w.task++; return w.task }
 func (w *World) Obs() []Obs { return w.obs }
 
 // Payload draws a fresh update payload.
-func (w *World) Payload() string { return w.payload() }
+// Payload returns a non-empty update payload that identifies its submission (clustersim's client ledger keys
+// on payloads; the empty command is exercised by nodediff only).
+func (w *World) Payload() string {
+	for {
+		if p := w.payload(); p != "" {
+			return p
+		}
+	}
+}
 
 // AddrOf is the address convention for node ids.
 func AddrOf(id uint64) string { return addrOf(id) }
